@@ -281,6 +281,13 @@ func (e *Engine) intrinsic(st *State, name string, args []Value, c *ssa.CallComm
 			}
 		}
 		return nil
+	case "Concrete":
+		// fork over the feasible values of x; returns a constant
+		t, ok := args[0].(*Term)
+		if !ok {
+			e.poisonUse(args[0])
+		}
+		return e.concretize(st, t)
 	case "Implies":
 		return ts.Implies(args[0].(*Term), args[1].(*Term))
 	case "Param":
